@@ -1144,7 +1144,7 @@ var c06Controls = []Control{
 	{Name: "numeric-range-recognisers-disagree-inside-a-test", Rule: "R06i", WantKey: "isLitRedir#lit", File: "syntax/lexer.go",
 		Mutate: ctlReplaceAnywhere("\t\t\tif r == '<' && p.lang.in(LangZsh) && p.zshNumRange() {\n\t\t\t\t// Zsh numeric range glob like", "\t\t\tif r == '<' && p.quote != testExpr && p.lang.in(LangZsh) && p.zshNumRange() {\n\t\t\t\t// Zsh numeric range glob like")},
 	{Name: "token-after-a-comment-read-by-recursion", Rule: "R06m", WantKey: "next#a lexer function does not call itself", File: "syntax/lexer.go",
-		Mutate: ctlReplaceAnywhere("\t\t\tgoto restart\n", "\t\t\tp.next()\n")},
+		Mutate: ctlChain(ctlReplaceAnywhere("\t\t\tgoto restart\n", "\t\t\tp.next()\n"), ctlReplaceAnywhere("func (p *Parser) next() {\nrestart:\n", "func (p *Parser) next() {\n"))},
 	{Name: "literal-start-width-from-the-rune-value", Rule: "R06f", WantKey: "newLit#p.bs", File: "syntax/lexer.go",
 		Mutate: ctlReplaceAnywhere("p.bs[p.bsp-uint(p.w):p.bsp]...)", "p.bs[p.bsp-uint(utf8.RuneLen(r)):p.bsp]...)")},
 	{Name: "fill-empties-the-buffer-at-eof", Rule: "R06k", WantKey: "fill#store 1 to p.bs keeps the unread bytes", File: "syntax/lexer.go",
